@@ -28,10 +28,19 @@ def gen_constraints(rng, seq, allow_custom=True, hard=True, custom_kinds=None):
             mini, maxi = rng.choice([(0.25, 0.75), (0.375, 0.625), (0.0, 0.5), (0.5, 1.0), (0.25, 0.5)])
             cs.append(("EnforceGCContent", kw(mini=mini, maxi=maxi, window=w, location=rng.choice([None, rloc(rng, n, strands=(0,), minlen=w)]))))
         elif r < 0.55 and hard:
-            cs.append(("AvoidChanges", kw(location=rloc(rng, n, strands=(0, 1)))))
+            if rng.random() < 0.3:
+                # an edit allowance in percent (possibly rounding down to 0 edits)
+                cs.append(("AvoidChanges", kw(location=rloc(rng, n, strands=(0, 1), minlen=6), max_edits_percent=rng.choice([1, 5, 10, 34]))))
+            else:
+                cs.append(("AvoidChanges", kw(location=rloc(rng, n, strands=(0, 1)))))
         elif r < 0.65 and hard:
             loc = rloc(rng, n, strands=(1, -1), mult=3, minlen=3)
             cs.append(("EnforceTranslation", kw(location=loc)))
+        elif r < 0.68:
+            # global (window-less) GC content with an explicit location: localizes to itself, and the
+            # user's object is the one the problem uses
+            mini, maxi = rng.choice([(0.25, 0.75), (0.3, 0.7), (0.4, 0.6)])
+            cs.append(("EnforceGCContent", kw(mini=mini, maxi=maxi, location=(0, n, 0))))
         elif r < 0.72:
             cs.append(("UniquifyAllKmers", kw(k=rng.choice([4, 5, 6]), include_reverse_complement=rng.random() < 0.5)))
         elif r < 0.78:
@@ -108,6 +117,22 @@ def gen_problem(rng, with_objectives=False, allow_custom=True, custom_kinds=None
     seq = "".join(s)
     cs = gen_constraints(rng, seq, allow_custom=allow_custom, custom_kinds=custom_kinds)
     os_ = gen_objectives(rng, seq, allow_custom=allow_custom) if with_objectives else []
+    if with_objectives and rng.random() < 0.3:
+        # codon-straddling family: a coding region whose multi-nucleotide choices straddle the border of
+        # non codon-aligned breaches, position-exact objectives listed BEFORE the breaching one
+        a = rng.choice([0, 1, 2, 3])
+        ln = (n - a) // 3 * 3
+        pat = rng.choice(["ATGC", "AAG", "CTT", "GAG", "TCG"])
+        s2 = list(seq)
+        for _ in range(rng.randint(1, 3)):
+            i = rng.randint(a, max(a, n - len(pat)))
+            s2[i:i + len(pat)] = pat
+        seq = "".join(s2)
+        cs = [("EnforceTranslation", kw(location=(a, a + ln, rng.choice([1, -1]))))] + [c for c in cs if c[0] not in ("EnforceTranslation", "AvoidChanges", "EnforceChoice")]
+        if rng.random() < 0.5:
+            cs.append(("AvoidPattern", kw(pattern=rng.choice(["GGTC", "CGA", "TTA", "AGC"]), location=None)))
+        os_ = [("AvoidChanges", kw(boost=rng.choice([0.5, 0.6, 1.0, 2.0]), location=None)),
+               ("AvoidPattern", kw(pattern=pat, boost=1.0, location=rng.choice([None, (a + 1, a + ln - 1, 0)])))]
     return dict(seq=seq, constraints=tuple(cs), objectives=tuple(os_), cfg=gen_settings(rng),
                 np_seed=rng.randint(0, 10**6))
 
